@@ -216,14 +216,32 @@ def run_float(unit, assignment, opts=None):
     return ctx, 'ok'
 
 
-def numeric_confirm(unit, rng, first_env=None, points=3):
+def witness_env(ctx, rng):
+    """a point satisfying the assumptions collected so far (z3 model), or None"""
+    try:
+        save = S.current_ctx()
+        S.set_ctx(None)
+        smt = Smt(ctx.nf)
+        base = ctx._base_asserts(smt)
+        r, model, dt = E.z3_check(smt.script(base + atom_axioms(smt)), ctx.timeout_ms, want_model=True)
+        S.set_ctx(save)
+        if r != 'sat':
+            return None
+        env = _model_assignment(ctx, smt, model, rng)
+        return env
+    except Exception:
+        return None
+
+
+def numeric_confirm(unit, rng, first_env=None, points=3, extra_envs=()):
     """degraded / safety-net mode: the float oracle at random points.  Returns a
     violation record if the real float code disagrees with the oracle at the
     first point AND at a second independent point."""
     bad = []
     tried = 0
     envs = [first_env] if first_env is not None else []
-    while tried < points + 4 and len(bad) < 2:
+    envs.extend(LazyAssignment(rng, e) for e in extra_envs if e is not None)
+    while tried < points + 4 + len(extra_envs) and len(bad) < 2:
         tried += 1
         env = envs.pop(0) if envs else LazyAssignment(rng)
         fctx, st = run_float(unit, env, {'float_tol': 1e-6})
@@ -425,7 +443,7 @@ def validate_path(unit, ctx, res, rng):
                     break
             else:
                 res['validation_mismatch'].append('%s: structure fingerprints differ in length' % unit.name)
-    fv = fctx.float_vals
+    fv = fctx.float_vals if unit.opts.get('validate_values', True) else {}
     n = 0
     bad = 0
     for label, l, r in ctx.obligations:
@@ -506,6 +524,10 @@ def run_unit(unit, tier='quick', seed=0):
             res['not_encoded'].append('%s: %s: %s | %s' % (unit.name, type(e).__name__, str(e)[:300],
                                                           ' <- '.join(l.strip() for l in tb[-6:-1])[:600]))
             S.set_ctx(None)
+            w = witness_env(ctx, rng)
+            if w is not None:
+                res.setdefault('witness_envs', []).append(w)
+                res.setdefault('witness_envs', []).append({k: v * (1 + 0.01 * rng.random()) for k, v in w.items()})
             break
         first = False
         work.extend(ctx.forks)
@@ -542,7 +564,7 @@ def run_unit(unit, tier='quick', seed=0):
     S.set_ctx(None)
     if not res['violations']:
         if res['not_encoded'] or res['fact_failures']:
-            v = numeric_confirm(unit, rng)
+            v = numeric_confirm(unit, rng, extra_envs=res.get('witness_envs', ()))
             if v is not None:
                 res['violations'].append(v)
         elif res['float_fail_points']:
